@@ -30,11 +30,11 @@ pub struct RSkel {
     pub alts: usize,
 }
 
-pub const NAMES: [&str; 2] = ["a", "lib-x+1.0"];
+pub const NAMES: [&str; 3] = ["a", "lib-x+1.0", "0ad"];
 pub const ARCHQUALS: [&str; 3] = ["", "any", "amd64"];
 pub const OPS: [&str; 6] = ["", ">=", "<<", "<=", "=", ">>"];
 pub const VERS: [&str; 3] = ["1", "1.0-1~rc1", "2:1.0"];
-pub const ARCHS: [&[&str]; 5] = [&[], &["amd64"], &["amd64", "i386"], &["!amd64"], &["!amd64", "!i386"]];
+pub const ARCHS: [&[&str]; 6] = [&[], &["amd64"], &["amd64", "i386"], &["!amd64"], &["!amd64", "!i386"], &["linux-any", "any-i386"]];
 pub const PROFILES: [&[&[&str]]; 8] = [&[], &[&["x"]], &[&["!x"]], &[&["x", "y"]], &[&["!x", "y"], &["z"]], &[&["x", "!y"]], &[&["!x", "!y", "z"]], &[&["x"], &["y", "!z"], &["!w"]]];
 /// whitespace around ',' and '|' and at the field's start/end
 pub const SEP_WS: [&str; 6] = ["", " ", "  ", "\t", "\n ", " \n  "];
@@ -44,12 +44,14 @@ pub const SEP_WS1: [&str; 6] = [" ", "", "  ", "\t", "\n ", " \n  "];
 pub const PART_WS: [&str; 4] = [" ", "", "  ", "\t"];
 /// whitespace between list items
 pub const ITEM_WS: [&str; 5] = [" ", "  ", "\t", "\n", "\n "];
-pub const KINDS: usize = 3; // entry, empty entry, substvar
+pub const KINDS: usize = 4; // entry, empty entry, substvar, a second substvar
+pub const SUBSTVAR2: &str = "${misc:Pre-Depends}";
 pub const SUBSTVAR: &str = "${a:B}";
 
-pub const REL_SLOTS: usize = 11;
-// name, archqual, op, version, archs, profiles, ws name-paren, ws op-version, ws before archs, ws before profiles, item ws
-const REL_MENUS: [usize; REL_SLOTS] = [2, 3, 6, 3, 5, 8, 4, 3, 4, 4, 5];
+pub const REL_SLOTS: usize = 13;
+// name, archqual, op, version, archs, profiles, ws name-paren, ws op-version, ws before archs, ws before profiles, item ws,
+// blank just inside the parentheses, blank just inside the [ ] and < > brackets
+const REL_MENUS: [usize; REL_SLOTS] = [3, 3, 6, 3, 6, 8, 4, 3, 4, 4, 5, 2, 2];
 
 /// Slot layout: [lead ws, trail ws, trailing comma] then per entry: [kind, ws before ',', ws after ','] + per alt: [ws before '|', ws after '|'] + relation slots
 pub fn menus(sk: RSkel) -> Vec<usize> {
@@ -65,7 +67,7 @@ pub fn menus(sk: RSkel) -> Vec<usize> {
 }
 
 pub fn render_rel(v: &[usize], with_default_ws: bool) -> Option<(String, MRel)> {
-    let (nm, aq, op, ver, ar, pr, w1, w2, w3, w4, iw) = (v[0], v[1], v[2], v[3], v[4], v[5], v[6], v[7], v[8], v[9], v[10]);
+    let (nm, aq, op, ver, ar, pr, w1, w2, w3, w4, iw, pin, lin) = (v[0], v[1], v[2], v[3], v[4], v[5], v[6], v[7], v[8], v[9], v[10], v[11], v[12]);
     let _ = with_default_ws;
     // inactive deviations
     if op == 0 && (ver != 0 || w1 != 0 || w2 != 0) {
@@ -81,6 +83,10 @@ pub fn render_rel(v: &[usize], with_default_ws: bool) -> Option<(String, MRel)> 
     if !multi_items && iw != 0 {
         return None;
     }
+    if (op == 0 && pin != 0) || (ar == 0 && pr == 0 && lin != 0) {
+        return None;
+    }
+    let (pi, li) = (["", " "][pin], ["", " "][lin]);
     let mut s = String::new();
     s.push_str(NAMES[nm]);
     if aq != 0 {
@@ -90,21 +96,28 @@ pub fn render_rel(v: &[usize], with_default_ws: bool) -> Option<(String, MRel)> 
     if op != 0 {
         s.push_str(PART_WS[w1]);
         s.push('(');
+        s.push_str(pi);
         s.push_str(OPS[op]);
         s.push_str([" ", "", "  "][w2]);
         s.push_str(VERS[ver]);
+        s.push_str(pi);
         s.push(')');
     }
     if ar != 0 {
         s.push_str(PART_WS[w3]);
         s.push('[');
+        s.push_str(li);
         s.push_str(&ARCHS[ar].join(ITEM_WS[iw]));
+        s.push_str(li);
         s.push(']');
     }
     for (gi, g) in PROFILES[pr].iter().enumerate() {
-        s.push_str(if gi == 0 { PART_WS[w4] } else { " " });
+        // between groups: the blank chosen in front of the first group when it is a wide one, else a single space
+        s.push_str(if gi == 0 || w4 >= 2 { PART_WS[w4] } else { " " });
         s.push('<');
+        s.push_str(li);
         s.push_str(&g.join(ITEM_WS[iw]));
+        s.push_str(li);
         s.push('>');
     }
     let m = MRel {
@@ -119,6 +132,9 @@ pub fn render_rel(v: &[usize], with_default_ws: bool) -> Option<(String, MRel)> 
 
 /// Render a field.  None when a slot deviates without effect.
 pub fn render(sk: RSkel, v: &[usize], allow_substvar: bool) -> Option<(String, MField)> {
+    if v.len() != menus(sk).len() {
+        return None; // a vector recorded under an older slot layout (known-findings file)
+    }
     let mut i = 0usize;
     let (lead, trail, tcomma) = (v[0], v[1], v[2]);
     i += 3;
@@ -137,7 +153,7 @@ pub fn render(sk: RSkel, v: &[usize], allow_substvar: bool) -> Option<(String, M
             text.push(',');
             text.push_str(SEP_WS1[wa]);
         }
-        if kind == 2 && !allow_substvar {
+        if kind >= 2 && !allow_substvar {
             return None;
         }
         let mut rels = vec![];
@@ -170,9 +186,13 @@ pub fn render(sk: RSkel, v: &[usize], allow_substvar: bool) -> Option<(String, M
         match kind {
             0 => model.entries.push(rels),
             1 => {}
-            _ => {
+            2 => {
                 text.push_str(SUBSTVAR);
                 model.substvars.push(SUBSTVAR.to_string());
+            }
+            _ => {
+                text.push_str(SUBSTVAR2);
+                model.substvars.push(SUBSTVAR2.to_string());
             }
         }
     }
